@@ -217,6 +217,7 @@ _ARITY = {
     "gen": 3,
     "obj": 3,
     "enum": 3,
+    "rawfunc": 2,
     "nt": 3,
     "excobj": 2,
     "free": 2,
@@ -311,7 +312,7 @@ def show(t, depth=0):
         return "f" + repr("".join("{%s}" % show(p, d) if not is_const(p) else str(p[2]) for p in t[1]))
     if k == "comp":
         return "<%s-comp %s for elem in %s>" % (t[1], show(t[3], d), show(t[2], d))
-    if k in ("closure", "excobj", "free"):
+    if k in ("closure", "excobj", "free", "rawfunc"):
         return "<%s %s>" % (k, t[1])
     if k == "partial":
         return "partial(%s)" % ", ".join([show(t[1], d)] + [show(x, d) for x in t[2]] + ["%s=%s" % (n, show(v, d)) for n, v in t[3]])
@@ -449,6 +450,37 @@ def string_leaves(t):
             for p in t[1]:
                 out += string_leaves(p) if is_const(p) else [p]
             return out
+        if is_call(t, "method:format") and t[2] and is_const(t[2][0]) and isinstance(t[2][0][2], str):
+            # a constant template: every field with its conversion ({x!a} is ascii(x), {x!r} repr(x))
+            import string as _string
+
+            args, kw = t[2][1:], dict(t[3])
+            out, auto = [], 0
+            try:
+                for lit, field, spec, conv in _string.Formatter().parse(t[2][0][2]):
+                    if lit:
+                        out.append(C(lit))
+                    if field is None:
+                        continue
+                    head = field.split(".")[0].split("[")[0]
+                    if head == "":
+                        v = args[auto]
+                        auto += 1
+                    elif head.isdigit():
+                        v = args[int(head)]
+                    else:
+                        v = kw[head]
+                    if "." in field or "[" in field:
+                        out.append(("fmt", "format", v))
+                    elif conv == "a":
+                        out.append(("call", "builtin:ascii", (v,), ()))
+                    elif conv == "r":
+                        out.append(("call", "builtin:repr", (v,), ()))
+                    else:
+                        out.append(("call", "builtin:str", (v,), ()) if conv == "s" or not spec else ("fmt", "format", v))
+                return out
+            except (ValueError, IndexError, KeyError):
+                pass
         if is_call(t, "method:format"):
             return string_leaves(t[2][0]) + [("fmt", "format", a) for a in t[2][1:]] + [("fmt", "format", v) for _n, v in t[3]]
         if is_call(t, "method:join") and len(t[2]) == 2 and is_lit(t[2][1]):
